@@ -456,8 +456,60 @@ func runC04(rt *rapid.T, c c04Case) c04Result {
 		}
 	}
 	timerMu.Unlock()
+	// The recorded finding is about the timer as documented ("first request = the round's absolute first
+	// deadline, a justified PRE-PREPARE received while in the round doubles it"). A run in which a
+	// non-faulty member gave up a round earlier than that rule allows is something else and is not covered
+	// by the recorded finding.
+	timerAsDocumented := true
+	earlyLeave := ""
+	if c.timerSel == "default" {
+		timeout := func(r int64) time.Duration {
+			d := time.Duration(r) * timer.LinearRoundInc
+			if c.duty.Type == core.DutyProposer {
+				d += timer.ProposalRoundExtra
+			}
+			return d
+		}
+		s.Lock()
+		for _, rc := range s.RoundChanges {
+			if rc.Rule != cq.UponRoundTimeout {
+				continue
+			}
+			if _, faulty := c.faults[rc.Proc]; faulty {
+				continue
+			}
+			r := rc.From
+			// how did the member enter round r, and did it process a justified PRE-PREPARE of r afterwards?
+			enteredSeq, enteredByPrePrepare := int64(0), false
+			for _, e := range s.RoundChanges {
+				if e.Proc == rc.Proc && e.To == r && e.Seq < rc.Seq {
+					enteredSeq, enteredByPrePrepare = e.Seq, e.Rule == cq.UponJustifiedPrePrepare
+				}
+			}
+			doubled := false
+			if !enteredByPrePrepare {
+				for _, e := range s.Rules {
+					if e.Proc == rc.Proc && e.Rule == cq.UponJustifiedPrePrepare && e.Msg != nil && e.Msg.Rnd == r && e.Seq > enteredSeq && e.Seq < rc.Seq {
+						doubled = true
+					}
+				}
+			}
+			expected := dutyStart.Add(timeout(r))
+			if doubled {
+				expected = expected.Add(timeout(r))
+			}
+			if rc.At.Before(expected) {
+				timerAsDocumented = false
+				earlyLeave = fmt.Sprintf("member %d left round %d on a timeout at +%v, the timer rule gives +%v (doubled=%v)", rc.Proc, r, rc.At.Sub(dutyStart), expected.Sub(dutyStart), doubled)
+			}
+		}
+		s.Unlock()
+	}
 	bound := res.rFault + int64(n)
-	if c.timerSel == "default" && splitDoubling && (!decidedAll || res.maxRound > bound) {
+	if c.timerSel == "default" && splitDoubling && !timerAsDocumented && (!decidedAll || res.maxRound > bound) {
+		vstat.Note("C04: run not attributed to the recorded finding: %s", earlyLeave)
+	}
+	if c.timerSel == "default" && splitDoubling && timerAsDocumented && (!decidedAll || res.maxRound > bound) {
 		if vstat.IsKnown("C04", "eager_timer_split_doubling", fmt.Sprintf("%v decision rounds %v", c, decRound)) {
 			vstat.Case("", false, "excluded:known_finding_eager_timer_split_doubling")
 			return res
